@@ -61,6 +61,13 @@ func toSlice(array interface{}) (slice interface{}) {
 	sliceStruct := unpackEFace(&slice)
 	sliceStruct.typ = reflect2.PtrOf(sliceType)
 	sliceStruct.ptr = unsafeToSlice(array, t.Len())
+	if reflect2.Type2(t).LikePtr() {
+		// a pointer-shaped array ([1]*T, [1]map[K]V, ...) is stored in the
+		// interface directly: the data word is its only element, not its address.
+		header := (*sliceHeader)(sliceStruct.ptr)
+		element := header.Data
+		header.Data = unsafe.Pointer(&element)
+	}
 	return
 }
 
